@@ -95,7 +95,7 @@ class Gen:
     # ------------------------------------------------------------------ trees
     def tree(self, n, names=None, kinds=("mandatory", "optional", "alternative", "or", "mutex", "card"),
              max_group=4, typed=False, fcard=False, abstract=True, attrs=None, single_group=False,
-             name_classes=("plain",)):
+             name_classes=("plain",), wide=False):
         """random tree with n features.
         single_group: a feature has either only single-child relations or exactly one group
         (optionally plus mandatory children when single_group == 'glencoe')."""
@@ -135,6 +135,16 @@ class Gen:
             remaining -= k
             if rng.random() < 0.15 and len(open_feats) > 1:
                 open_feats.remove(parent)
+        if wide and rng.random() < 0.15:
+            # a wide group whose bounds have different numbers of digits ([2..10], [9..12], ...)
+            leaf = rng.choice([f for f in self._all(root) if not f["rels"]])
+            k = rng.randint(10, 13)
+            mk = wide if callable(wide) else (lambda l, j: f"{l}_w{j}")
+            new = [mk(leaf["name"], j) for j in range(k)]
+            if not set(new) & {f["name"] for f in self._all(root)}:
+                kids = [self._feat(x, typed, False, abstract, attrs) for x in new]
+                leaf["rels"].append(R(rng.randint(2, 9), rng.randint(10, k), kids))
+                self.count("rel_kind", "wide-multi-digit-bounds")
         self.count("tree_size", min(n, 50) if n < 50 else "50+")
         return root
 
